@@ -7,6 +7,7 @@ import (
 	"Havoc/pkg/logger"
 	"Havoc/pkg/packager"
 	"Havoc/pkg/service"
+	"Havoc/pkg/verifhook"
 	"encoding/json"
 	"errors"
 	"fmt"
@@ -160,6 +161,7 @@ func (t *Teamserver) ListenerRemove(Name string) ([]*Listener, []packager.Packag
 			}
 
 			// remove the listener from our database
+			verifhook.Point("ts.listener_remove.mid")
 			err := t.DB.ListenerRemove(Name)
 			if err != nil {
 				logger.Error("Failed to remove listener: ", Name)
